@@ -122,7 +122,9 @@ def clientStep (s : S) (t : Thr) (label : String) (case : Int) : S × Thr × Lis
   if label == "start" || label == "call" then
     let t := loadOp t
     let b := s!"begin:{t.idx}:{(t.ops[t.idx]?).getD "?"}"
-    if t.kind == "cx" then
+    if t.kind == "px" then
+      (act s .parentCancel "parentCancel", finish t, [b, retEv t 0 "nil"])
+    else if t.kind == "cx" then
       let k := ((t.ctx).toNat?).getD 0
       ({ s with ctxs := s.ctxs.set k true }, finish t, [b, retEv t 0 "nil"])
     else (s, t, [b])
@@ -133,6 +135,8 @@ def clientStep (s : S) (t : Thr) (label : String) (case : Int) : S × Thr × Lis
   | "closedError.load-closed" =>
     if s.st.closed then
       (if t.stage == 0 then act s .rejectWrite "rejectWrite" else s, { t with stage := t.stage + 10 }, [])
+    else if s.st.parentDone then      -- not closed yet, but the parent context ended: closedError() = ctx.Err()
+      (if t.stage == 0 then act s .rejectWrite "rejectWrite(parent)" else s, finish t, [retEv t 0 "ctx"])
     else if t.stage == 0 then (act s .beginWrite "beginWrite", { t with stage := 1 }, [])
     else (fail s "closed branch taken but channel not closed", t, [])
   | "closedError.closeerr" =>
@@ -146,7 +150,7 @@ def clientStep (s : S) (t : Thr) (label : String) (case : Int) : S × Thr × Lis
     else if case == 0 then
       if ctxDone s t.ctx then (act s .abortCtx "abortCtx", finish t, [retEv t 0 "ctx"]) else (fail s "caller-context case taken but context live", t, [])
     else if case == 1 then
-      if s.st.ctxDone then (act s .abortClosed "abortClosed", { t with stage := 2 }, []) else (fail s "channel-context case taken but context live", t, [])
+      if s.st.ctxDone || s.st.parentDone then (act s .abortClosed "abortClosed", { t with stage := 2 }, []) else (fail s "channel-context case taken but context live", t, [])
     else (act s .noSpace "noSpace", finish t, [retEv t 0 "nospace"])
   | "asyncWrite.cas-running" | "asyncWritev.cas-running" =>
     let won := !s.st.running
